@@ -157,3 +157,170 @@ Theorem C18_dom_implies_gt : forall a b, nonan_vec a -> nonan_vec b ->
   dominating a b = true -> gt a b = true.
 Proof. exact dom_implies_gt. Qed.
 Print Assumptions C18_dom_implies_gt.
+
+(* ---- model_measurements::operator>= (dominating && accuracy >=): despite its
+   name it is a STRICT partial order on each family (irreflexive) *)
+Theorem C18_mm_ge_strict_partial_order : forall n a b c,
+  in_family n (m_fitness a) -> in_family n (m_fitness b) -> in_family n (m_fitness c) ->
+  nonan_vec (m_fitness a) -> nonan_vec (m_fitness b) -> nonan_vec (m_fitness c) ->
+  nonan (m_accuracy a) -> nonan (m_accuracy b) -> nonan (m_accuracy c) ->
+  mm_ge a a = false /\
+  (mm_ge a b = true -> mm_ge b a = false) /\
+  (mm_ge a b = true -> mm_ge b c = true -> mm_ge a c = true).
+Proof.
+  intros n a b c Fa Fb Fc Ha Hb Hc Na Nb Nc.
+  exact (conj (mm_ge_irrefl a Ha) (conj (mm_ge_asym a b Ha Hb)
+        (mm_ge_trans n a b c Fa Fb Fc Ha Hb Hc Na Nb Nc))).
+Qed.
+Print Assumptions C18_mm_ge_strict_partial_order.
+
+(* ---- element-wise arithmetic, joining, distance, rounding agree with their
+   scalar definitions.  [zip_with op a b] is [op a_i b_i] for each index of the
+   shorter vector.  operator+=, -=, *= run over the indices of the left operand and
+   read f[i] behind Expects(i < size()): defined iff the right operand is at
+   least as long. *)
+Theorem C18_elementwise_plus : forall a b,
+  (length a <= length b -> plus a b = Some (zip_with F64.add a b))%nat /\
+  (length b < length a -> plus a b = None)%nat.
+Proof. intros a b. exact (conj (compound_elementwise F64.add a b) (compound_contract F64.add a b)). Qed.
+Print Assumptions C18_elementwise_plus.
+
+Theorem C18_elementwise_minus : forall a b,
+  (length a <= length b -> minus a b = Some (zip_with F64.sub a b))%nat /\
+  (length b < length a -> minus a b = None)%nat.
+Proof. intros a b. exact (conj (compound_elementwise F64.sub a b) (compound_contract F64.sub a b)). Qed.
+Print Assumptions C18_elementwise_minus.
+
+Theorem C18_elementwise_times : forall a b,
+  (length a <= length b -> times a b = Some (zip_with F64.mul a b))%nat /\
+  (length b < length a -> times a b = None)%nat.
+Proof. intros a b. exact (conj (compound_elementwise F64.mul a b) (compound_contract F64.mul a b)). Qed.
+Print Assumptions C18_elementwise_times.
+
+Theorem C18_zip_with_pointwise : forall op a b,
+  (length a <= length b -> length (zip_with op a b) = length a)%nat /\
+  (forall i x y, nth_error a i = Some x -> nth_error b i = Some y ->
+                 nth_error (zip_with op a b) i = Some (op x y)).
+Proof. intros op a b. exact (conj (zip_with_length op a b) (zip_with_nth op a b)). Qed.
+Print Assumptions C18_zip_with_pointwise.
+
+Theorem C18_elementwise_unary : forall f v i,
+  nth_error (div_scalar f v) i = option_map (fun x => F64.div x v) (nth_error f i) /\
+  nth_error (mul_scalar f v) i = option_map (fun x => F64.mul x v) (nth_error f i) /\
+  nth_error (vabs f) i = option_map F64.abs (nth_error f i) /\
+  nth_error (vsqrt f) i = option_map F64.sqrt (nth_error f i).
+Proof.
+  intros f v i.
+  exact (conj (map_nth_pointwise _ f i) (conj (map_nth_pointwise _ f i)
+        (conj (map_nth_pointwise _ f i) (map_nth_pointwise _ f i)))).
+Qed.
+Print Assumptions C18_elementwise_unary.
+
+Theorem C18_round_to_pointwise : forall f i,
+  nth_error (round_to f) i =
+  option_map (fun x => F64.mul (F64.round_half_away (F64.div x float_epsilon)) float_epsilon) (nth_error f i).
+Proof. intros f i. exact (map_nth_pointwise _ f i). Qed.
+Print Assumptions C18_round_to_pointwise.
+
+Theorem C18_combine_app : forall a b, combine_fit a b = a ++ b.
+Proof. exact combine_app. Qed.
+Print Assumptions C18_combine_app.
+
+(* the order of joined fitnesses is decided by the first parts unless they are equal *)
+Theorem C18_combine_lexicographic : forall a b c d,
+  nonan_vec a -> nonan_vec b -> nonan_vec c -> nonan_vec d -> length a = length b ->
+  lt_lex (combine_fit a c) (combine_fit b d) =
+  if lt_lex a b then true else if lt_lex b a then false else lt_lex c d.
+Proof. exact combine_lex. Qed.
+Print Assumptions C18_combine_lexicographic.
+
+Theorem C18_distance_is_sum_abs : forall a b,
+  (length a = length b ->
+   distance a b = Some (fold_left F64.add (zip_with (fun x y => F64.abs (F64.sub x y)) a b) F64.zero)) /\
+  (length a <> length b -> distance a b = None).
+Proof. intros a b. exact (conj (distance_is_sum_abs a b) (distance_contract a b)). Qed.
+Print Assumptions C18_distance_is_sum_abs.
+
+(* ================================================================== *)
+(* Non-vacuity: the hypotheses are met by non-trivial values, the model does
+   compute, and the side conditions are needed. *)
+Definition d (bits : Z) : f64 := F64.of_bits bits.
+Definition p0 := d 0.                         (* +0 *)
+Definition n0 := d 9223372036854775808.       (* -0 *)
+Definition pinf := d 9218868437227405312.     (* +inf *)
+Definition ninf := d 18442240474082181120.    (* -inf *)
+Definition one := d 4607182418800017408.
+Definition two := d 4611686018427387904.
+Definition three := d 4613937818241073152.
+Definition dmin := d 1.                       (* smallest denormal *)
+
+Definition bits_of_result (r : option vec) : option (list Z) := option_map (map F64.to_bits) r.
+
+Example nonan_witness : nonan_vec [p0; n0; pinf; ninf; one; dmin].
+Proof. apply nonan_vec_iff. vm_compute. reflexivity. Qed.
+
+(* +0 and -0 are different bit patterns, equal fitness values, neither smaller *)
+Example zeros_equal : eq_vec [p0; one] [n0; one] = true /\ lt_lex [p0; one] [n0; one] = false /\
+                      gt [p0; one] [n0; one] = false /\ F64.to_bits p0 <> F64.to_bits n0.
+Proof. vm_compute. repeat split; discriminate. Qed.
+
+(* different lengths: a proper prefix is smaller; the empty fitness is the least *)
+Example prefix_smaller : lt_lex [one] [one; ninf] = true /\ lt_lex [] [ninf] = true /\
+                         eq_vec [one] [one; ninf] = false.
+Proof. vm_compute. repeat split. Qed.
+
+Example order_extremes : lt_lex [ninf] [d 18442240474082181119] = true /\   (* -inf < -max *)
+                         lt_lex [n0] [dmin] = true /\ lt_lex [dmin] [d 2] = true /\
+                         lt_lex [d 9218868437227405311] [pinf] = true.      (* max < +inf *)
+Proof. vm_compute. repeat split. Qed.
+
+(* the hypothesis "no NaN" is needed: with a NaN none of <, ==, > holds *)
+Example trichotomy_needs_nonan :
+  lt_lex [F64.nan] [one] = false /\ eq_vec [F64.nan] [one] = false /\ gt [F64.nan] [one] = false /\
+  ge [F64.nan] [one] = true /\ le [F64.nan] [one] = true.
+Proof. vm_compute. repeat split. Qed.
+
+(* dominance: a non-trivial instance of the hypotheses of C18_dom_trans ... *)
+Example dom_chain : dominating [two; two] [two; one] = true /\ dominating [two; one] [one; one] = true /\
+                    dominating [two; two] [one; one] = true /\ dominating [two; one] [] = true /\
+                    in_family 2 [two; one] /\ in_family 2 [].
+Proof. vm_compute. repeat split; auto. Qed.
+
+(* ... incomparable vectors exist (dominance is partial) ... *)
+Example dom_partial : dominating [two; one] [one; two] = false /\ dominating [one; two] [two; one] = false /\
+                      eq_vec [two; one] [one; two] = false.
+Proof. vm_compute. repeat split. Qed.
+
+(* ... and the restriction to one family is needed: with mixed lengths
+   dominating() is not transitive *)
+Example dom_trans_needs_one_family :
+  dominating [two; p0] [one] = true /\ dominating [one] [p0; three] = true /\
+  dominating [two; p0] [p0; three] = false.
+Proof. vm_compute. repeat split. Qed.
+
+(* selection: three arrangements, one winner *)
+Example best_of_example :
+  bits_of_result (best_of [[one; two]; [one; three]; [one]]) = Some [4607182418800017408; 4613937818241073152]%Z /\
+  bits_of_result (best_of [[one]; [one; three]; [one; two]]) = Some [4607182418800017408; 4613937818241073152]%Z /\
+  best_of [] = None.
+Proof. vm_compute. repeat split. Qed.
+
+(* arithmetic: computed values (as bit patterns), the contract, rounding of a half step *)
+Example arithmetic_examples :
+  bits_of_result (plus [one; two] [two; two; pinf]) = Some [4613937818241073152; 4616189618054758400]%Z /\  (* (3, 4) *)
+  bits_of_result (plus [one; two] [two]) = None /\
+  bits_of_result (minus [pinf] [pinf]) = Some [9221120237041090560]%Z /\                        (* NaN *)
+  option_map F64.to_bits (distance [one; two] [two; p0]) = Some 4613937818241073152%Z /\          (* 3 *)
+  option_map F64.to_bits (distance [one] [one; two]) = None /\
+  map F64.to_bits (combine_fit [one] [two; three]) = map F64.to_bits [one; two; three] /\
+  map F64.to_bits (round_to [d 4544755322205258541; n0; pinf]) =                 (* 0.00005 -> 0.0001 *)
+    [4547007122018943789; 9223372036854775808; 9218868437227405312]%Z /\
+  map F64.to_bits (vsqrt [d 4616189618054758400; n0]) = [4611686018427387904; 9223372036854775808]%Z.
+Proof. vm_compute. repeat split. Qed.
+
+Example mm_ge_example :
+  mm_ge {| m_fitness := [two]; m_accuracy := one; m_is_solution := false |}
+        {| m_fitness := [one]; m_accuracy := p0; m_is_solution := false |} = true /\
+  mm_ge {| m_fitness := [two]; m_accuracy := one; m_is_solution := false |}
+        {| m_fitness := [two]; m_accuracy := one; m_is_solution := false |} = false.
+Proof. vm_compute. repeat split. Qed.
